@@ -83,14 +83,14 @@ type c16Snap struct {
 }
 
 type c16Obs struct {
-	snaps      []c16Snap
-	connErrs   []error
-	gen        int
-	conns      []*c16Conn
-	infoCalls  int
+	snaps     []c16Snap
+	connErrs  []error
+	gen       int
+	conns     []*c16Conn
+	infoCalls int
 	// test-recording requests that returned without error while one connection was current throughout
 	testrecAccepted int
-	framesSeen []uint32
+	framesSeen      []uint32
 }
 
 type c16Env struct {
